@@ -580,7 +580,8 @@ func decodeArray(raw []byte, elemOid int) []interface{} {
 	dataStart := 12 + ndim*8
 	if dataoff > 0 {
 		nullBitmap = raw[dataStart : dataStart+(total+7)/8]
-		dataStart = dataoff
+		// dataoffset is measured from the start of the varlena, i.e. it includes the 4-byte length word that raw lacks
+		dataStart = dataoff - 4
 	}
 
 	elemLen, fixed := fixedLengths[elemOid]
